@@ -110,3 +110,8 @@ Fixpoint no_sharing_l (E : env) (fmts : list N) (l : list (N * option N)) : bool
       && no_sharing_l E fmts rest
   end.
 Definition no_sharing (E : env) (fmts : list N) (ops : list op) : bool := no_sharing_l E fmts (news ops).
+(* every format a history uses is one of `fmts` (the formats whose class-level pipelines `no_sharing` looked at) *)
+Definition op_fmt_ok (fmts : list N) (o : op) : bool :=
+  match o with
+  | OInit _ f | OConvColl _ _ f | OConvRule _ _ f => existsb (N.eqb f) fmts
+  | _ => true end.
